@@ -2,7 +2,7 @@
    [OpTable] is regenerated from grammar.lalrpop / lexer.rs / primop.rs / pretty.rs on every run. *)
 From Coq Require Import String List ZArith QArith Bool.
 From NV Require Import Surface.Ast Surface.Indent Surface.Print Surface.Parse Surface.TableWf
-  Surface.RoundTrip Surface.Multiline Surface.Image Surface.Examples Surface.Refuted Gen.OpTable.
+  Surface.RoundTrip Surface.Multiline Surface.Image Surface.CoreImage Surface.Examples Surface.Refuted Gen.OpTable.
 Import ListNotations.
 Open Scope string_scope.
 
@@ -45,6 +45,12 @@ Definition C14_full_parse_print : Prop :=
   forall t, parser_image primops infix_ops t = true -> pa repaired_code (pr repaired_code t) = Some t.
 Definition C14_full_image_closed : Prop :=
   forall ts t, pa repaired_code ts = Some t -> parser_image primops infix_ops t = true.
+
+(* the proved fragment lies inside the image, so [C14_parse_print_core] is [C14_full_parse_print]
+   restricted to [core] *)
+Theorem C14_core_in_image :
+  forall t, core primops infix_ops repaired_code t -> parser_image primops infix_ops t = true.
+Proof. exact (core_in_image primops infix_ops repaired_code). Qed.
 
 (* the number of percent signs the printer chooses for a multiline string (nb_percent, from
    min_interpolate_sign) makes the lexer's multiline mode (Multiline.lex, the automaton of
